@@ -572,6 +572,14 @@ func verifAofCompactMode(args []string) {
 		case op == "waitrewrite":
 			settle()
 			_ = slock.aof.WaitRewriteAofFiles()
+		case strings.HasPrefix(op, "adv:"):
+			// the manual clock moves on between the requests and the compaction (HasLock compares deadlines)
+			settle()
+			for _, d := range slock.dbs {
+				if d != nil {
+					d.currentTime += int64(verifAtoi(op[4:]))
+				}
+			}
 		case op == "rotate":
 			settle()
 			_ = slock.aof.WaitRewriteAofFiles()
